@@ -311,7 +311,8 @@ static void gen_op(char *line, size_t cap) {
       if (o->type == HWLOC_OBJ_MEMCACHE || o->type == HWLOC_OBJ_NUMANODE || (o->type == HWLOC_OBJ_MISC && o->parent && !o->parent->cpuset)
           || (o->type == HWLOC_OBJ_MISC && o->parent && (o->parent->type == HWLOC_OBJ_MEMCACHE || o->parent->type == HWLOC_OBJ_NUMANODE))) { id = r2; break; }
     }
-    snprintf(line, cap, "OP misc %u %s", id, h1);
+    /* NULL name (obj->name stays NULL) and the empty name now and then */
+    snprintf(line, cap, "OP misc %u %s", id, rng_chance(8) ? "-" : rng_chance(4) ? "=" : h1);
   } else if (r < 72) {
     int bynode = rng_chance(25);
     gen_set(a, sizeof a, bynode ? root->complete_nodeset : root->complete_cpuset);
